@@ -85,8 +85,21 @@ One can reverse a captured panic stack trace as follows:
 					addHashedWithPackage(node.Name.Name)
 				case *ast.TypeSpec:
 					addHashedWithPackage(node.Name.Name)
+				case *ast.ValueSpec:
+					// Package-level variables are obfuscated and listed by "garble map".
+					for _, name := range node.Names {
+						obj, _ := tf.info.ObjectOf(name).(*types.Var)
+						if obj != nil && !obj.IsField() && obj.Parent() == tf.pkg.Scope() {
+							addHashedWithPackage(name.Name)
+						}
+					}
 				case *ast.Field:
 					for _, name := range node.Names {
+						if fn, _ := tf.info.ObjectOf(name).(*types.Func); fn != nil {
+							// A method declared in an interface type.
+							addHashedWithPackage(name.Name)
+							continue
+						}
 						obj, _ := tf.info.ObjectOf(name).(*types.Var)
 						if obj == nil || !obj.IsField() {
 							continue
